@@ -17,6 +17,7 @@ import (
 	"net/http/httptest"
 	"net/url"
 	"os"
+	"reflect"
 	"strconv"
 	"strings"
 	"time"
@@ -149,6 +150,9 @@ type servers struct {
 	doh string
 	// jsonBody is the JSON document the last "json" exchange returned.
 	jsonBody []byte
+	// override, when set, maps a transport to a server built elsewhere (the
+	// wiring campaign: by the production builder from a configuration file).
+	override map[string]any
 }
 
 func (sv *servers) handler() dnsserver.Handler {
@@ -174,6 +178,9 @@ func (sv *servers) handler() dnsserver.Handler {
 var errHandler = fmt.Errorf("c08: handler failed")
 
 func (sv *servers) get(t string, cfgMax uint16, idleMs int) any {
+	if s, ok := sv.override[t]; ok {
+		return s
+	}
 	key := fmt.Sprintf("%s/%d/%d", t, cfgMax, idleMs)
 	if s, ok := sv.cache[key]; ok {
 		return s
@@ -192,11 +199,31 @@ func (sv *servers) get(t string, cfgMax uint16, idleMs int) any {
 	case "doq":
 		s = dnsserver.NewServerQUIC(dnsserver.ConfigQUIC{ConfigBase: base})
 	case "dcu", "dct":
-		s = dnsserver.NewServerDNSCrypt(dnsserver.ConfigDNSCrypt{ConfigBase: base})
+		s = dnsserver.NewServerDNSCrypt(dnsCryptConf(dnsserver.ConfigDNSCrypt{ConfigBase: base}, cfgMax))
 	}
 	sv.cache[key] = s
 
 	return s
+}
+
+// dcCapField reports whether the tree under test has ConfigDNSCrypt.MaxUDPRespSize
+// (it has since the fix: commit that wires dns.max_udp_response_size into the
+// DNSCrypt server).  The field is set by reflection so that this harness still
+// builds against older trees (legacy_diff.sh, bisecting).
+var dcCapField = true
+
+// dnsCryptConf hands the configured UDP maximum to a DNSCrypt configuration.
+// Zero means "not set" there (the server then uses 65535).
+func dnsCryptConf(conf dnsserver.ConfigDNSCrypt, cfgMax uint16) dnsserver.ConfigDNSCrypt {
+	f := reflect.ValueOf(&conf).Elem().FieldByName("MaxUDPRespSize")
+	if !f.IsValid() || !f.CanSet() || f.Kind() != reflect.Uint16 {
+		dcCapField = false
+
+		return conf
+	}
+	f.SetUint(uint64(cfgMax))
+
+	return conf
 }
 
 // driven is what the real write path did with one (request, handler response).
@@ -238,10 +265,16 @@ func (sv *servers) driveMode(mode, t string, cfgMax uint16, idleMs int, reqWire 
 		_ = dnsserver.VerifC08ServeQUICStream(s, fakeStream{in: bytes.NewReader(in), s: sk}, fakeQUICConn{s: sk})
 	case "doh":
 		s := sv.get(t, cfgMax, idleMs).(*dnsserver.ServerHTTPS)
-		h := dnsserver.VerifC08HTTPHandler(s, tcpLocal)
+		// "h3" / "h3get": the handler of the HTTP/3 listener, whose local address
+		// is a UDP address (DoH3 is still a stream transport: limit 65535).
+		la, mode3 := net.Addr(tcpLocal), strings.HasPrefix(sv.doh, "h3")
+		if mode3 {
+			la = udpLocal
+		}
+		h := dnsserver.VerifC08HTTPHandler(s, la)
 		var r *http.Request
 		switch sv.doh {
-		case "get":
+		case "get", "h3get":
 			r = httptest.NewRequest(http.MethodGet, "https://dns.example/dns-query?dns="+base64.RawURLEncoding.EncodeToString(reqWire), nil)
 		case "jsonwire", "json":
 			q := &dns.Msg{}
@@ -271,6 +304,9 @@ func (sv *servers) driveMode(mode, t string, cfgMax uint16, idleMs int, reqWire 
 			r.Header.Set("Content-Type", dnsserver.MimeTypeDoH)
 		}
 		r.RemoteAddr = "192.0.2.7:40000"
+		if mode3 {
+			r.Proto, r.ProtoMajor, r.ProtoMinor = "HTTP/3.0", 3, 0
+		}
 		w := httptest.NewRecorder()
 		h.ServeHTTP(w, r)
 		if w.Code == http.StatusOK && sv.doh == "json" {
@@ -524,6 +560,8 @@ type tcase struct {
 	// keepQ: the handler's response keeps the question section it was built
 	// with (none, another spelling, two questions) instead of the request's.
 	keepQ bool
+	// wired: the servers come from the production builder (wiring campaign).
+	wired bool
 }
 
 type pending struct {
@@ -648,14 +686,23 @@ func clip(s string, n int) string {
 	return s
 }
 
+// effCfg: ConfigDNSCrypt.MaxUDPRespSize of zero is "not set" and stands for
+// 65535 (the configuration file cannot say zero, see the wiring campaign).
+func effCfg(t string, cfgMax uint16) uint16 {
+	if (t == "dcu" || t == "dct") && cfgMax == 0 {
+		return dns.MaxMsgSize
+	}
+
+	return cfgMax
+}
+
 func (x *runner) limit(c tcase, reqOpt optView) int {
 	if !isUDP(c.t) {
 		return dns.MaxMsgSize
 	}
-	capv := int(c.cfgMax)
-	if c.t == "dcu" {
-		capv = dns.MaxMsgSize
-	}
+	// The configured maximum binds every UDP response, DNSCrypt's included: the
+	// oracle does not ask which constant a write path happens to pass.
+	capv := int(effCfg(c.t, c.cfgMax))
 	adv := 0
 	if reqOpt.Present {
 		adv = int(reqOpt.Size)
@@ -668,6 +715,10 @@ func (x *runner) limit(c tcase, reqOpt optView) int {
 // what left the server, and queues the model comparison.
 func (x *runner) run(c tcase) {
 	r := x.r
+	// The server is built with the value as given (zero = unset on DNSCrypt);
+	// the oracle and the model work with what it stands for.
+	rawCfg := c.cfgMax
+	c.cfgMax = effCfg(c.t, c.cfgMax)
 	reqWire, err := c.req.Pack()
 	if err != nil {
 		r.Count("skipped.request-does-not-pack")
@@ -719,7 +770,7 @@ func (x *runner) run(c tcase) {
 			}
 		}()
 		x.sv.doh, x.sv.jsonBody = c.doh, nil
-		d = x.sv.drive(c.t, c.cfgMax, c.idleMs, reqWire, resp)
+		d = x.sv.drive(c.t, rawCfg, c.idleMs, reqWire, resp)
 		x.sv.doh = ""
 	}()
 
@@ -1020,6 +1071,9 @@ func (x *runner) oracle(c tcase, d driven, reqOpt, hOpt optView, nAns, nNs, nExt
 			sig = "udp-oversize-tsig-not-truncated"
 		case x.curTsigExempt:
 			sig = "stream-oversize-tsig-not-truncated"
+		case c.t == "dcu" && len(d.wire) <= max(dns.MinMsgSize, min(int(reqOpt.Size), dns.MaxMsgSize)):
+			// within what the client advertised, but above the configured maximum
+			sig = "dnscrypt-udp-configured-max-ignored"
 		case isUDP(c.t) && onlyQuestionAndOPT && wOpt.Present && !hOpt.Present:
 			sig = "udp-oversize-reflected-option-payload"
 		case isUDP(c.t) && onlyQuestionAndOPT && wOpt.Present && hOpt.Present:
@@ -1105,6 +1159,23 @@ func (x *runner) oracle(c tcase, d driven, reqOpt, hOpt optView, nAns, nNs, nExt
 			r.Violate("keepalive-not-requested", fmt.Sprintf("%s: keep-alive %v returned although the client sent none", c.t, wOpt.lens(dns.EDNS0TCPKEEPALIVE)), rp())
 		} else {
 			r.Count("keepalive.added")
+		}
+	}
+
+	// 5b. the keep-alive the server answers with is the configured idle timeout
+	// in RFC 7828's unit of 100 ms (configuration -> component correspondence;
+	// not part of the property's wording, hence a disagreement).
+	if hasKA(c.t) && reqOpt.has(dns.EDNS0TCPKEEPALIVE) {
+		if o := w.IsEdns0(); o != nil {
+			for _, e := range o.Option {
+				if ka, ok := e.(*dns.EDNS0_TCP_KEEPALIVE); ok {
+					if want := effIdle(c.idleMs) / 100; int(ka.Timeout) != want {
+						r.Disagree("keepalive-timeout-value", fmt.Sprintf("%s: keep-alive timeout %d (x100 ms) for a configured idle timeout of %d ms", c.t, ka.Timeout, effIdle(c.idleMs)), rp())
+					} else {
+						r.Count("keepalive.timeout-value-checked")
+					}
+				}
+			}
 		}
 	}
 }
@@ -1583,7 +1654,7 @@ func (x *runner) randomCampaign(n int) {
 		}
 		doh := ""
 		if t == "doh" {
-			doh = []string{"", "", "", "get", "get", "get", "jsonwire", "jsonwire", "json", "json"}[rng.IntN(10)]
+			doh = []string{"", "", "", "get", "get", "get", "jsonwire", "jsonwire", "json", "json", "h3", "h3get"}[rng.IntN(12)]
 			if doh == "jsonwire" || doh == "json" {
 				req = genJSONReq(rng)
 			}
@@ -1708,6 +1779,8 @@ func (x *runner) boundaryCampaign() {
 						doh := ""
 						if t == "doh" && (variant+dl)%2 != 0 {
 							doh = "get"
+						} else if t == "doh" && variant%3 == 0 {
+							doh = "h3"
 						}
 						x.run(tcase{t: t, cfgMax: cfg, idleMs: idles[rng.IntN(len(idles))], req: req, resp: resp,
 							tag: fmt.Sprintf("boundary/%s/lim=%d%+d/v%d/c=%v", t, lim, dl, variant, compressed), doh: doh})
@@ -1971,6 +2044,10 @@ func (x *runner) findings() {
 // compared with the model of the whole server (`respond`).
 func (x *runner) runServer(c tcase, kind, mode string) {
 	r := x.r
+	// The server is built with the value as given (zero = unset on DNSCrypt);
+	// the oracle and the model work with what it stands for.
+	rawCfg := c.cfgMax
+	c.cfgMax = effCfg(c.t, c.cfgMax)
 	reqWire, err := c.req.Pack()
 	if err != nil {
 		r.Count("skipped.request-does-not-pack")
@@ -1991,7 +2068,7 @@ func (x *runner) runServer(c tcase, kind, mode string) {
 				r.Violate("panic-in-write-path", fmt.Sprintf("%s: write path panicked: %v", c.t, v), x.replay(c, "", reqOpt, optView{}))
 			}
 		}()
-		d = x.sv.driveMode(mode, c.t, c.cfgMax, c.idleMs, reqWire, &dns.Msg{})
+		d = x.sv.driveMode(mode, c.t, rawCfg, c.idleMs, reqWire, &dns.Msg{})
 	}()
 	var sent []byte
 	if d.emitted {
@@ -2154,8 +2231,21 @@ func (x *runner) serverMade() {
 // the ameshkov/dnscrypt library, loopback sockets) and judges what a client
 // decrypts: the library truncates a second time, pads, encrypts and frames.
 func (x *runner) dnscryptE2E() {
+	x.dnscryptE2EWith(dns.MaxMsgSize)
+	// Round 5: the same with a configured maximum below what the clients
+	// advertise (skipped on a tree whose ConfigDNSCrypt has no such field; the
+	// component campaigns report that tree anyway).
+	for _, cfg := range []uint16{1232, 600} {
+		if dcCapField {
+			x.dnscryptE2EWith(cfg)
+		}
+	}
+}
+
+func (x *runner) dnscryptE2EWith(cfg uint16) {
 	r := x.r
-	rng := x.o.Rand("dnscrypt-e2e")
+	rng := x.o.Rand(fmt.Sprintf("dnscrypt-e2e-%d", cfg))
+	full := cfg == dns.MaxMsgSize
 	rc, err := dnscrypt.GenerateResolverConfig("example.org", nil)
 	if err != nil {
 		r.Disagree("dnscrypt-e2e-setup", err.Error(), nil)
@@ -2172,8 +2262,8 @@ func (x *runner) dnscryptE2E() {
 	pk := ed25519.PrivateKey(priv).Public().(ed25519.PublicKey)
 	var s *dnsserver.ServerDNSCrypt
 	for i := 0; i < 30; i++ {
-		s = dnsserver.NewServerDNSCrypt(dnsserver.ConfigDNSCrypt{ConfigBase: dnsserver.ConfigBase{Name: "c08-e2e", Addr: "127.0.0.1:0", Handler: x.sv.handler()},
-			DNSCryptProviderName: "example.org", DNSCryptResolverCert: cert})
+		s = dnsserver.NewServerDNSCrypt(dnsCryptConf(dnsserver.ConfigDNSCrypt{ConfigBase: dnsserver.ConfigBase{Name: "c08-e2e", Addr: "127.0.0.1:0", Handler: x.sv.handler()},
+			DNSCryptProviderName: "example.org", DNSCryptResolverCert: cert}, cfg))
 		if err = s.Start(context.Background()); err == nil {
 			break
 		}
@@ -2184,6 +2274,9 @@ func (x *runner) dnscryptE2E() {
 		return
 	}
 	defer func() { _ = s.Shutdown(context.Background()) }()
+	if os.Getenv("C08_DEBUG") != "" {
+		fmt.Fprintf(os.Stderr, "e2e server cfg=%d conf.MaxUDPRespSize=%d\n", cfg, reflect.ValueOf(s).Elem().FieldByName("conf").FieldByName("MaxUDPRespSize").Uint())
+	}
 	uaddr, taddr := s.LocalUDPAddr().String(), s.LocalTCPAddr().String()
 	var ri *dnscrypt.ResolverInfo
 	for i := 0; i < 3 && ri == nil; i++ {
@@ -2254,10 +2347,16 @@ func (x *runner) dnscryptE2E() {
 		answersOnly bool
 	}
 	var cases []e2eCase
-	cases = append(cases, e2eCase{"dct", -1, 65520, true, true}, e2eCase{"dct", 1232, 65500, true, true})
+	if full {
+		cases = append(cases, e2eCase{"dct", -1, 65520, true, true}, e2eCase{"dct", 1232, 65500, true, true})
+	}
 	for _, adv := range []int{-1, 0, 512, 600, 1232, 4096} {
-		lim := max(512, adv)
-		for _, d := range []int{-70, -66, -65, -64, -63, -62, -30, -1, 0, 1, 40, 700} {
+		lim := max(512, min(adv, int(cfg)))
+		ds := []int{-70, -66, -65, -64, -63, -62, -30, -1, 0, 1, 40, 700}
+		if !full {
+			ds = []int{-65, -64, -1, 0, 1, 40, 700, 2500}
+		}
+		for _, d := range ds {
 			for _, comp := range []bool{false, true} {
 				cases = append(cases, e2eCase{t: "dcu", adv: adv, target: lim + d, compressed: comp})
 			}
@@ -2265,6 +2364,10 @@ func (x *runner) dnscryptE2E() {
 		cases = append(cases, e2eCase{t: "dcu", adv: adv, target: 100, compressed: true}, e2eCase{t: "dct", adv: adv, target: 100 + rng.IntN(3000)})
 	}
 	for _, target := range []int{65300, 65460, 65469, 65470, 65471, 65472, 65473, 65500, 65534, 65535, 65536, 65600} {
+		if !full {
+			// DNSCrypt/TCP does not look at the configured UDP maximum: one probe
+			break
+		}
 		for _, adv := range []int{-1, 1232} {
 			cases = append(cases, e2eCase{t: "dct", adv: adv, target: target})
 		}
@@ -2273,17 +2376,21 @@ func (x *runner) dnscryptE2E() {
 	if x.o.Thorough() {
 		extra = 600
 	}
+	if !full {
+		extra /= 4
+		cases = append(cases, e2eCase{t: "dct", adv: 4096, target: 9000})
+	}
 	for i := 0; i < extra; i++ {
 		adv := []int{-1, 0, 512, 1232, 1452, 4096}[rng.IntN(6)]
 		if rng.IntN(4) == 0 {
 			cases = append(cases, e2eCase{t: "dct", adv: adv, target: []int{200, 3000, 65400, 65471, 65480, 65520}[rng.IntN(6)] + rng.IntN(30), compressed: rng.IntN(2) == 0})
 		} else {
-			cases = append(cases, e2eCase{t: "dcu", adv: adv, target: max(60, max(512, adv)-64+rng.IntN(140)-70), compressed: rng.IntN(2) == 0})
+			cases = append(cases, e2eCase{t: "dcu", adv: adv, target: max(60, max(512, min(adv, int(cfg)))-64+rng.IntN(140)-70), compressed: rng.IntN(2) == 0})
 		}
 	}
 
-	var lines []string
-	var reals []string
+	var lines, visLines []string
+	var reals, visReals []string
 	x.e2e = true
 	defer func() { x.e2e = false }()
 	for i, ec := range cases {
@@ -2332,14 +2439,24 @@ func (x *runner) dnscryptE2E() {
 		hOpt := viewOpt(resp.IsEdns0())
 		hOPTs := countOPT(resp.Extra)
 		nAns, nNs, nExtra := len(resp.Answer), len(resp.Ns), len(noOPT(resp.Extra))
-		c := tcase{t: ec.t, cfgMax: 65535, req: req, resp: resp, tag: fmt.Sprintf("dnscrypt-e2e#%d/%s/adv=%d/target=%d/c=%v", i, ec.t, ec.adv, ec.target, ec.compressed)}
+		c := tcase{t: ec.t, cfgMax: cfg, req: req, resp: resp, tag: fmt.Sprintf("dnscrypt-e2e/cfg=%d#%d/%s/adv=%d/target=%d/c=%v", cfg, i, ec.t, ec.adv, ec.target, ec.compressed)}
 		lim := x.limit(c, reqOpt)
+		// What AdGuard DNS hands to the library, uncompressed: the real normalize
+		// on a copy (the library looks at that length first and, when it fits,
+		// sends the message without compression).
+		handedUnc := -1
+		if ec.t == "dcu" {
+			cp := resp.Copy()
+			dnsserver.VerifC08Normalize(dnsserver.NetworkUDP, dnsserver.ProtoDNSCrypt, reqSeen, cp, cfg)
+			cp.Compress = false
+			handedUnc = cp.Len()
+		}
 		x.sv.cur, x.sv.writeErr, x.sv.mode, x.sv.called = resp, nil, "wrote", false
 		raw, prefix, note := exchange(ec.t, reqWire)
 		// resp is the object the library packed: its final state tells how long
 		// the DNS message was that went into the envelope.
 		final, ferr := resp.Pack()
-		canon := fmt.Sprintf("%s/e2e adv=%d req[%s] resp[a=%d n=%d e=%d opt=%s] target=%d/%v lim=%d", ec.t, ec.adv, reqLine(reqOpt), nAns, nNs, nExtra, hOpt.String(), ec.target, ec.compressed, lim)
+		canon := fmt.Sprintf("%s/e2e cfg=%d adv=%d req[%s] resp[a=%d n=%d e=%d opt=%s] target=%d/%v lim=%d", ec.t, cfg, ec.adv, reqLine(reqOpt), nAns, nNs, nExtra, hOpt.String(), ec.target, ec.compressed, lim)
 		r.Count("dnscrypt-e2e." + ec.t)
 		r.Evaluations++
 		rp := x.replay(c, "", reqOpt, hOpt)
@@ -2392,6 +2509,19 @@ func (x *runner) dnscryptE2E() {
 		if !bytes.Equal(plain, final) {
 			r.Disagree("wire-vs-message", fmt.Sprintf("%s/e2e: decrypted message (%d bytes) differs from the final message object (%d bytes)", ec.t, len(plain), len(final)), map[string]any{"case": canon})
 		}
+		if handedUnc >= 0 {
+			visLines = append(visLines, fmt.Sprintf("dcvis %s %d %d %d", x.legacy, adv, cfg, handedUnc))
+			if resp.Compress {
+				visReals = append(visReals, "cut")
+			} else {
+				// Len() is an upper bound of what Pack produces (library contract)
+				visReals = append(visReals, fmt.Sprintf("plain %d", handedUnc))
+				if len(plain) > handedUnc {
+					r.Disagree("library-contract", fmt.Sprintf("dcu/e2e: %d bytes packed without compression, uncompressed Len() %d", len(plain), handedUnc), map[string]any{"case": canon})
+				}
+				r.Count("dnscrypt-e2e.sent-uncompressed")
+			}
+		}
 		libLimit := max(512, adv) - 64
 		if ec.t == "dct" {
 			libLimit = 65535 - 64
@@ -2403,6 +2533,14 @@ func (x *runner) dnscryptE2E() {
 			r.Count("dnscrypt-e2e.over-library-limit")
 		case n >= -16:
 			r.Count("dnscrypt-e2e.within-16-below-library-limit")
+		}
+		if os.Getenv("C08_DEBUG") != "" && len(plain) > lim && ec.t == "dcu" {
+			w := &dns.Msg{}
+			_ = w.Unpack(plain)
+			fmt.Fprintf(os.Stderr, "OVER %s plain=%d lim=%d\n%s\n", canon, len(plain), lim, clip(w.String(), 600))
+			for _, rr := range w.Extra {
+				fmt.Fprintf(os.Stderr, "  extra %T len=%d\n", rr, dns.Len(rr))
+			}
 		}
 		if ec.answersOnly && os.Getenv("C08_DEBUG") != "" {
 			fmt.Fprintf(os.Stderr, "answersOnly: nAns=%d final=%d plain=%d\n", nAns, len(final), len(plain))
@@ -2422,6 +2560,14 @@ func (x *runner) dnscryptE2E() {
 		r.ModelOps++
 		if a != reals[i] {
 			r.Disagree("dnscrypt-envelope-model", fmt.Sprintf("%s: model %q, real %q", lines[i], a, reals[i]), lines[i])
+		} else {
+			r.Traces++
+		}
+	}
+	for i, a := range x.m.Batch(visLines) {
+		r.ModelOps++
+		if a != visReals[i] {
+			r.Disagree("dnscrypt-visible-model", fmt.Sprintf("%s: model %q, real %q", visLines[i], a, visReals[i]), visLines[i])
 		} else {
 			r.Traces++
 		}
@@ -2454,6 +2600,7 @@ func main() {
 
 	x.sizeGrid()
 	x.packGuard()
+	x.wiringCampaign()
 	x.findings()
 	x.serverMade()
 	x.boundaryCampaign()
